@@ -48,7 +48,7 @@ fn real_cap<T>(cap: usize) -> usize {
 fn builders<C: Combo>(sink: &mut Sink, rng: &mut Rng, thorough: bool) {
   let (q, w) = (C::QNAME, C::W);
   let max_depth = <C::Q as MocQty<C::T>>::MAX_DEPTH;
-  let n = if thorough { 1500 } else { 120 };
+  let n = if thorough { 4500 } else { 120 };
   for _ in 0..n {
     let d = rng.below(max_depth as u64 + 1) as u8;
     let ncell = n_cells::<C::T, C::Q>(d);
